@@ -38,6 +38,15 @@ def run_shared(chk, tier, own):
                 ev = indx.file_event(IndxIO, tid, arity, common, ents, str(wd), cuts=(own == "C12" or tid % 7 == 0))
                 events.append(ev)
                 meta[tid] = {"kind": "file", "arity": arity, "common": common, "ents": ents}
+        if own in ("C10", "C11"):
+            # the writer with 1-, 2- and 8-byte row-id words (its dtype argument), for the files whose row ids fit one byte
+            import numpy as np
+            small = [c for c in indx.gen_file_cases(tier, core.SEED + 6) if all(v < 256 for _k, r in c[2] for v in r)][:: 4][: (120 if tier == "quick" else 1500)]
+            for arity, common, ents in small:
+                for rdt in (np.uint8, np.uint16, np.uint64):
+                    tid += 1
+                    events.append(indx.file_event(IndxIO, tid, arity, common, ents, str(wd), cuts=False, rowdtype=rdt))
+                    meta[tid] = {"kind": "file", "arity": arity, "common": common, "ents": ents, "rowid_word_size": int(np.dtype(rdt).itemsize)}
         if own in ("C10", "C11", "C12"):
             # the same writer used from several threads at once: every file is still the layout of its own data (and its
             # size field that of its own payload - a smaller one would let torn prefixes pass)
